@@ -196,3 +196,7 @@ META["C11"]["real"] = CLI_REAL + ["ll-muxer profile: the real gohlslib Muxer as 
 META["C05"]["rule"] += (" held profile: reader tasks are parked at the yield hooks between handler lookup and call and between opening a segment/part "
                         "reader and copying it while the writer finalises, rotates or expires that object (small window), then resumed: a 200 "
                         "response must carry exactly the bytes the object had when it was listed.")
+
+META["C13"]["rule"] += (" muxer-spot profile: the real muxer (mostly Low-Latency) is the origin and 1-3 of the first 40 responses are damaged at the "
+                        "byte level, so that e.g. a later Low-Latency playlist loses its preload hint, its parts or its server-control line.")
+META["C13"]["real"] = CLI_REAL + ["muxer-spot profile: the real gohlslib Muxer as origin"]
